@@ -755,7 +755,71 @@ Definition create (t : ktype) (n : N) (bk bv bh : bufkind) : res mp :=
   let* s3 := init_htx sg n s2 in
   Ok (Mp t n s3).
 
+(** ** opening the files of an existing map ([open_with_params] on files that are not empty)
+
+    [KeyFile::open_with_params], [ValueFile::open_with_params], [HtxFile::open_with_params], in
+    this order (dbxxx.rs).  Each: [seek_to_end] (the length of the file); a length of zero means
+    "just created": the header would be written ([HdrFresh]; creation over a partial set of files
+    is not modelled, [create] is the creation on three empty files).  Otherwise
+    [check_keyrecf_header] / [check_valrecf_header] / [check_htxf_header]: [seek_from_start(0)],
+    [read_exact] of signature1, [assert!], [read_exact] of signature2, [assert!], [read_u64_le]
+    (reserve0 must be 0 / the bucket count must not be 0), [assert!].  A failed [assert!] unwinds at
+    once: the reads after it do not happen, the files opened before are dropped, and the drop of
+    a file nothing was written to performs no I/O ([HdrBad]).  The table file then reads the
+    bucket count AGAIN ([read_hash_buckets_size]) and keeps it in memory: the parameters of the
+    open are not consulted ([open_existing] does not take them).
+    Reads are the flat reads of this file: beyond the end they return zeros (rabuf; seen on the
+    real crate with truncated files: a key file of 20 bytes passes the reserve0 check).
+    [s]: the three files as the previous session left them, positions 0, chunk sizes of the
+    buffers THIS open asked for ([chunk_of]). *)
+Inductive hdr_verdict := HdrOk | HdrBad | HdrFresh.
+
+Definition open_check (f : fid) (sg1 sg2 : bytes) (third_ok : N -> bool) (s : st) : res (hdr_verdict * st) :=
+  let* (e, s0) := seek_to_end f s in
+  if e =? 0 then Ok (HdrFresh, s0) else
+  let* (_, s1) := seek_from_start f 0 s0 in
+  let* (a, s2) := read_n f 8 s1 in
+  if negb (bytes_eqb a sg1) then Ok (HdrBad, s2) else
+  let* (b, s3) := read_n f 8 s2 in
+  if negb (bytes_eqb b sg2) then Ok (HdrBad, s3) else
+  let* (c, s4) := read_u64 f s3 in
+  if third_ok c then Ok (HdrOk, s4) else Ok (HdrBad, s4).
+
+Inductive open_outcome :=
+| Opened (m : mp)          (* all three headers pass; the table size is the one read from the file *)
+| RejectedAt (f : fid)     (* an [assert!] of the header check of file [f] failed: panic *)
+| FreshFile (f : fid).     (* file [f] has length zero: the crate would write a header *)
+
+Definition open_existing (t : ktype) (s : st) : res (open_outcome * st) :=
+  let sg := sig_of t in
+  let* (vk, s1) := open_check FKey (sig1 key_cfg) sg (fun c => c =? 0) s in
+  match vk with
+  | HdrFresh => Ok (FreshFile FKey, s1)
+  | HdrBad => Ok (RejectedAt FKey, s1)
+  | HdrOk =>
+    let* (vv, s2) := open_check FVal (sig1 val_cfg) sg (fun c => c =? 0) s1 in
+    match vv with
+    | HdrFresh => Ok (FreshFile FVal, s2)
+    | HdrBad => Ok (RejectedAt FVal, s2)
+    | HdrOk =>
+      let* (vh, s3) := open_check FHtx htx_signature sg (fun c => negb (c =? 0)) s2 in
+      match vh with
+      | HdrFresh => Ok (FreshFile FHtx, s3)
+      | HdrBad => Ok (RejectedAt FHtx, s3)
+      | HdrOk =>
+        let* (n, s4) := read_hash_buckets_size s3 in
+        Ok (Opened (Mp t n s4), s4)
+      end
+    end
+  end.
+
+(** the files a closed session left behind, as the next open finds them *)
+Definition reopen_st (k v h : bytes) (bk bv bh : bufkind) : st :=
+  St (File k 0 (chunk_of key_chunk_size bk)) (File v 0 (chunk_of val_chunk_size bv))
+     (File h 0 (chunk_of htx_chunk_size bh)) [].
+
 (** the three byte strings (.htx, .key, .val), as [Layout.render] orders them *)
+Definition st_images (s : st) : bytes * bytes * bytes := (fb (s_htx s), fb (s_key s), fb (s_val s)).
 Definition images (m : mp) : bytes * bytes * bytes :=
   (fb (s_htx (m_st m)), fb (s_key (m_st m)), fb (s_val (m_st m))).
 
